@@ -118,7 +118,7 @@ func GenConfig(prop string, g *Gen, tier string) Config {
 	c.Format = []string{FmtBinary, FmtMarshaler}[g.Intn(2)]
 	c.Marshaler = "json"
 	c.KeyD = allKeyDialects[g.Intn(len(allKeyDialects))]
-	c.ValD = []string{"int", "int", "string", "struct", "bytes", "lval", "nil", "ptr"}[g.Intn(8)]
+	c.ValD = []string{"int", "int", "string", "struct", "bytes", "lval", "nil", "ptr", "int", "bigstr"}[g.Intn(10)]
 	c.Disks = 1
 	c.U = []int{8, 12, 20, 40, 80, 200}[g.Intn(6)]
 	switch g.Intn(8) {
